@@ -250,11 +250,69 @@ theorem spelling_canon {s n : Str} (h : Spelling s n) : canon (lower s) = canon 
   · rw [h]; exact canon_lower n
   · rw [h]; exact canon_canon n
 
-theorem getFake_of_dictGet {t : List (Str × TVal)} {s : Str} {v : TVal}
-    (h : dictGet t (lower s) = some v) : getFake t s = resolve v := by
+/-- The two-step lookup, abstractly: if whatever is stored under the spelling as written is `v`,
+    and the canonical key is present and also holds `v`, the lookup resolves to `v`. -/
+theorem getFake_eq_resolve {t : List (Str × TVal)} {s : Str} {v : TVal}
+    (h1 : ∀ w, dictGet t (lower s) = some w → w = v)
+    (h2 : ∃ w, dictGet t (canon s) = some w)
+    (h2' : ∀ w, dictGet t (canon s) = some w → w = v) : getFake t s = resolve v := by
+  obtain ⟨w2, hw2⟩ := h2
+  have e2 : w2 = v := h2' w2 hw2
+  subst e2
+  have hc : noUnderscore (lower s) = canon s := rfl
   unfold getFake
-  rw [h]
-  cases v <;> rfl
+  rw [hc, hw2]
+  cases h : dictGet t (lower s) with
+  | none => cases w2 <;> simp [implOf, resolve]
+  | some w =>
+    have := h1 w h
+    subst this
+    cases w <;> simp [implOf, resolve]
+
+theorem dictGet_append_cases {a b : List (Str × TVal)} {k : Str} {w : TVal}
+    (h : dictGet (a ++ b) k = some w) :
+    dictGet b k = some w ∨ (dictGet b k = none ∧ dictGet a k = some w) := by
+  induction a with
+  | nil =>
+    left
+    simpa using h
+  | cons e r ih =>
+    obtain ⟨k', v'⟩ := e
+    simp only [List.cons_append] at h
+    unfold dictGet at h
+    cases hr : dictGet (r ++ b) k with
+    | some x =>
+      rw [hr] at h
+      simp only [Option.some.injEq] at h
+      subst h
+      rcases ih hr with h' | ⟨h1, h2⟩
+      · exact Or.inl h'
+      · right
+        refine ⟨h1, ?_⟩
+        unfold dictGet
+        rw [h2]
+    | none =>
+      rw [hr] at h
+      simp only at h
+      have hb : dictGet b k = none := by
+        cases hb : dictGet b k with
+        | none => rfl
+        | some x => rw [dictGet_append_right hb] at hr; cases hr
+      have hrn : dictGet r k = none := by
+        cases hrr : dictGet r k with
+        | none => rfl
+        | some x =>
+          obtain ⟨y, hy⟩ := dictGet_of_mem (t := r ++ b) (List.mem_append_left b (dictGet_mem hrr))
+          rw [hy] at hr; cases hr
+      right
+      refine ⟨hb, ?_⟩
+      unfold dictGet
+      rw [hrn]
+      exact h
+
+theorem noUnderscore_canon (x : Str) : noUnderscore (canon x) = canon x := by
+  unfold canon
+  exact noUnderscore_idem _
 
 theorem snow_segment_has_key {sn : DirList} {e : Str × TVal} (he : e ∈ sn.filter (visible []))
     {s : Str} (hs : Spelling s e.1) :
@@ -275,5 +333,57 @@ theorem snow_segment_sound {sn : DirList} {k : Str} {w : TVal}
     exact ⟨e, he, Or.inl hk, hv⟩
   · obtain ⟨e, he, hk, hv⟩ := mem_objToFuncList h
     exact ⟨e, he, Or.inr hk, hv⟩
+
+/-! ### the table as a whole, and its Snowfakery segments -/
+
+/-- every value stored under a key with the canonical form of `e`'s name is `e`'s value -/
+theorem table_value (fk : DirList) (ig : List Str) (sn : DirList)
+    (hc : Consistent (entries fk ig sn)) (e : Str × TVal) (he : e ∈ entries fk ig sn)
+    (k : Str) (hk : canon k = canon e.1) (w : TVal)
+    (hw : dictGet (buildTable fk ig sn) k = some w) : w = e.2 := by
+  obtain ⟨e', he', hk', hv⟩ := Proofs.C18.mem_buildTable (Proofs.C18.dictGet_mem hw)
+  rw [hv]
+  exact hc e' he' e he (by rw [← Proofs.C18.canon_key hk', hk])
+
+/-- the canonical form of every visible attribute's name is a key of the table -/
+theorem canon_key_present (fk : DirList) (ig : List Str) (sn : DirList) (e : Str × TVal)
+    (he : e ∈ entries fk ig sn) : ∃ w, dictGet (buildTable fk ig sn) (canon e.1) = some w := by
+  unfold entries at he
+  apply Proofs.C18.dictGet_of_mem (v := e.2)
+  unfold buildTable
+  simp only [List.mem_append]
+  rcases List.mem_append.1 he with h | h
+  · exact Or.inl (Or.inl (Or.inr (Proofs.C18.objToFuncList_mem h)))
+  · exact Or.inr (Proofs.C18.objToFuncList_mem h)
+
+/-- the snow segments come last: what they hold under a key is what the table holds -/
+theorem snow_value (fk : DirList) (ig : List Str) (sn : DirList) (k : Str) (w : TVal)
+    (h : dictGet (objToFuncList lower sn [] ++ objToFuncList canon sn []) k = some w) :
+    dictGet (buildTable fk ig sn) k = some w := by
+  unfold buildTable
+  rw [List.append_assoc]
+  exact Proofs.C18.dictGet_append_right h
+
+theorem table_cases (fk : DirList) (ig : List Str) (sn : DirList) (k : Str) (w : TVal)
+    (h : dictGet (buildTable fk ig sn) k = some w) :
+    dictGet (objToFuncList lower sn [] ++ objToFuncList canon sn []) k = some w ∨
+    (dictGet (objToFuncList lower sn [] ++ objToFuncList canon sn []) k = none ∧
+      dictGet (objToFuncList lower fk ig ++ objToFuncList canon fk ig) k = some w) := by
+  unfold buildTable at h
+  rw [List.append_assoc] at h
+  exact Proofs.C18.dictGet_append_cases h
+
+/-- a value of the snow segments under a key with the canonical form of `e`'s name is `e`'s -/
+theorem snow_table_value (sn : DirList) (hc : Consistent (sn.filter (visible [])))
+    (e : Str × TVal) (he : e ∈ sn.filter (visible [])) (k : Str) (hk : canon k = canon e.1)
+    (w : TVal) (hw : dictGet (objToFuncList lower sn [] ++ objToFuncList canon sn []) k = some w) :
+    w = e.2 := by
+  obtain ⟨e', he', hk', hv⟩ := Proofs.C18.snow_segment_sound (Proofs.C18.dictGet_mem hw)
+  rw [hv]
+  exact hc e' he' e he (by rw [← Proofs.C18.canon_key hk', hk])
+
+theorem snow_canon_key (sn : DirList) (e : Str × TVal) (he : e ∈ sn.filter (visible [])) :
+    ∃ w, dictGet (objToFuncList lower sn [] ++ objToFuncList canon sn []) (canon e.1) = some w :=
+  Proofs.C18.dictGet_of_mem (v := e.2) (List.mem_append_right _ (Proofs.C18.objToFuncList_mem he))
 
 end SnowModel.Proofs.C18
